@@ -1,5 +1,6 @@
 import Splipy.Driver.Common
 import Splipy.Model.DerivSpline
+import Splipy.Model.Order
 
 namespace Splipy.Driver.C03
 open Splipy Splipy.Driver
@@ -32,12 +33,77 @@ def encodeOutcome : Outcome → Val
 /-- vector field + squared norms: `[shape, flat, normsq]` -/
 def encodeVec (t : Tensor ℚ) : Val := .list [Val.ofNats t.shape, ofArr t.data, ofArr t.normSqRows]
 
+/-- One in-place operation of a history (`clone` replaces the receiver by its deep copy: a no-op for the
+    model, whose objects carry no hidden state). -/
+inductive HOp where
+  | reparam (dir : ℕ) (s e : ℚ)
+  | reverse (dir : ℕ)
+  | swap (d1 d2 : ℕ)
+  | insert (dir : ℕ) (x : ℚ)
+  | raise (amounts : List Int)
+  | translate (x : List ℚ)
+  | scale (s : List ℚ)
+  | clone
+
+def decodeHOp (v : Val) : Option HOp := do
+  let xs ← v.toList?
+  match xs with
+  | [.str "reparam", d, s, e] => some (.reparam (← d.toNat?) (← s.toRat?) (← e.toRat?))
+  | [.str "reverse", d] => some (.reverse (← d.toNat?))
+  | [.str "swap", d1, d2] => some (.swap (← d1.toNat?) (← d2.toNat?))
+  | [.str "insert", d, x] => some (.insert (← d.toNat?) (← x.toRat?))
+  | [.str "raise", a] => some (.raise (← a.toInts?))
+  | [.str "translate", x] => some (.translate (← x.toRats?))
+  | [.str "scale", x] => some (.scale (← x.toRats?))
+  | [.str "clone"] => some .clone
+  | _ => none
+
+def applyHOp (tol : ℚ) (o : Obj ℚ) : HOp → PyM (Obj ℚ)
+  | .reparam d s e => o.reparamDir d s e
+  | .reverse d => .ok (o.reverse d)
+  | .swap d1 d2 => .ok (if o.pardim < 2 then o else o.swap d1 d2)
+  | .insert d x => o.insertKnots [x] d
+  | .raise a => (o.raiseOrderDispatch tol (o.pardim == 1) a none).map (·.2)
+  | .translate x => .ok (o.translate x)
+  | .scale s => o.scale s
+  | .clone => .ok o
+
+/-- Parameters given as fractions of the CURRENT domain of each direction. -/
+def fracParams (o : Obj ℚ) (fracs : List (List ℚ)) : List (List ℚ) :=
+  (List.zip o.bases.toList fracs).map (fun (b, fs) => fs.map (fun f => b.start + f * (b.stop - b.start)))
+
+/-- A query of a history: `[dspline,dir]`, `[deriv,fracs,d,above,tensor]`, `[tangent,fracs,dir,above,tensor]`,
+    `[eval,fracs,tensor]`. -/
+def runQuery (o : Obj ℚ) (tol : ℚ) (q : Val) : Val :=
+  match q with
+  | .list [.str "dspline", dirv] =>
+      match dirv.toNat? with
+      | some dir => ofExcept encodeObj (o.getDerivativeSpline tol dir)
+      | none => bad
+  | .list [.str "deriv", fv, dv, av, tv] =>
+      match decodeRatLists fv, decodeD dv, decodeA av, tv.toBool? with
+      | some fr, some d, some a, some tensor =>
+          ofExcept encodeTensor (o.derivativeCall tol (fracParams o fr) d a tensor)
+      | _, _, _, _ => bad
+  | .list [.str "tangent", fv, dirv, av, tv] =>
+      match decodeRatLists fv, dirv.toInt?, decodeA av, tv.toBool? with
+      | some fr, some dir, some a, some tensor =>
+          let d : Option ℕ := if dir < 0 then none else some dir.toNat
+          ofExcept (fun l => .list (l.map encodeVec)) (o.tangent tol (fracParams o fr) d a tensor)
+      | _, _, _, _ => bad
+  | .list [.str "eval", fv, tv] =>
+      match decodeRatLists fv, tv.toBool? with
+      | some fr, some tensor => ofExcept encodeTensor (o.evaluate tol (fracParams o fr) tensor)
+      | _, _ => bad
+  | _ => bad
+
 /--
 * `c03_deriv <obj> <tol> <params> <d> <above> <tensor>` → `[shape, flat]`: `obj.derivative(*params, d=, above=, tensor=)`
   through the class of the object (before the squeeze).
 * `c03_outcome <pardim> <rational> <d>` → the dispatch outcome.
 * `c03_dspline <obj> <tol> <dir>` → derivative object; `dir = -1` → list for all directions.
 * `c03_tangent <obj> <tol> <params> <dir|-1> <above> <tensor>` → list of `[shape, flat, normsq]`.
+* `c03_history <obj> <tol> <ops> <query>` → `[query before, ok | err:…, query after the in-place ops]`.
 * `c03_snormal <obj> <tol> <params> <above> <tensor>`, `c03_binormal <obj> <tol> <ts> <above>`,
   `c03_cnormal <obj> <tol> <ts> <above>` → `[shape, flat, normsq]` (un-normalised).
 -/
@@ -50,6 +116,15 @@ def handle : Handler
       let some a := decodeA av | return bad
       let some tensor := tv.toBool? | return bad
       return ofExcept encodeTensor (o.derivativeCall tol ps d a tensor)
+  | "c03_history", [ov, tolv, opsv, qv] => some <| Id.run do
+      let some o := decodeObj ov | return bad
+      let some tol := tolv.toRat? | return bad
+      let some ol := opsv.toList? | return bad
+      let some ops := ol.mapM decodeHOp | return bad
+      let before := runQuery o tol qv
+      match ops.foldlM (applyHOp tol) o with
+      | .error e => return .list [before, e.toVal, e.toVal]
+      | .ok o' => return .list [before, .str "ok", runQuery o' tol qv]
   | "c03_outcome", [pdv, rv, dv] => some <| Id.run do
       let some pd := pdv.toNat? | return bad
       let some r := rv.toBool? | return bad
